@@ -18,7 +18,11 @@ TECHNIQUE = "runtime monitoring by stateful fuzzing at the API boundary: each re
 RULE = (
     "fuzz cases = (handler side, prepared resting step, mode, seed): 12-40 actions drawn from {9 PDU kinds x right/wrong source id, destination id, sequence "
     "number, id width x both direction flags x both modes x CRC flag x arbitrary offsets/lengths/sizes/condition codes/acked directives/NAK request lists, "
-    "idle call, clock advance, cancel with right/wrong id, put request, call without draining the queue, reset}; loop cases = hostile loopback transfers "
+    "idle call, clock advance (alone or together with a PDU), cancel with right/wrong id, put request (same / empty file / metadata-only / missing source / "
+    "unknown destination / over-long names / binary messages to user / one file name only), call without draining the queue, reset (also with a non-empty "
+    "queue)}; 8 % of the directive PDUs are byte-mutated behind the header and Metadata PDUs get non-UTF-8 / NUL file names (whatever the dependency still parses "
+    "is delivered); directed cases: every resting step x PDU kind x {plain, with timer expiry}, every sequence of the small alphabets up to depth 4-6, "
+    "reset-with-queued-PDUs followed by every two-action continuation; loop cases = hostile loopback transfers "
     "(drop/dup/delay/reorder, cancels) which also measure which (source step, destination step) rest at call boundaries.  Non-trivial = at least one PDU "
     "reached a busy handler; distinct = distinct (case, action list) hashes"
 )
